@@ -20,6 +20,16 @@ CHECKS = {
  "C16": ("exhaustive per-node exploration of every accepted tree of the enumerated sources: event discipline, sub-iteration vs slice of the root pre-order, unwrap_node!/unwrap_locate! vs first match, get_str_trim vs recomputed span, and an independent pre-order taken from derive(Debug)",
          "All trees of the stated finite input space, and in each tree all nodes, are checked against an independently computed pre-order; no sampling (quick tier strides nodes of trees > 400 nodes).",
          "Trusted: the harness; std's derive(Debug) field order as independent reference for struct nodes and leaves; node identity compared as (kind, leaf position)."),
+
+ "C02": ("bounded exhaustive enumeration of a reference Annex A grammar kept as data (models/sv_grammar.txt): for every rule every combination of its own choices in its shortest context, every ordered pair of element alternatives of every repetition, x layouts x adversarial identifier pools; oracle = strict acceptance + one node of the stated kind per fact + one leaf per identifier/keyword token",
+         "All sentences of the stated finite space are parsed by the real parser and every fact the generator attached to them is checked in the tree; model (grammar) behaviours are all replayed against the implementation, not only counterexamples.",
+         "Trusted: the reference grammar and its facts (written from Annex A, independent of the parser), SyntaxTree::get_origin to return to source coordinates, keyword list typed from Annex B. Facts admit several kinds where Annex A itself is ambiguous. Three known findings carry re-inspection signatures."),
+ "C08": ("bounded exhaustive enumeration of adversarial inputs (all token soups <= n over 32/38 tokens, all character strings <= n over 12 characters, seeds cut after / without every token, directive seeds cut at every byte, file-level faults at 3 nesting levels) through every public entry point and every tree accessor under catch_unwind",
+         "Every input of the stated finite space goes through preprocess_str (both strip settings), parse_sv_str / parse_lib_str (strict, incomplete, ignore_include), and every Ok tree is iterated, rendered and converted node by node; file faults are produced in real directories.",
+         "Trusted: the harness. Aborts (stack overflow) kill the explorer; the driver then isolates the in-flight cases one per process. Permission errors cannot be produced as root."),
+ "C14": ("bounded exhaustive fault enumeration: every accepted seed (pp fixed points) x every token boundary x 3 bad bytes, x every single bracket / block keyword deleted, the same through `include, and 8 pp programs x every line start x 9 lexical faults",
+         "Every (program, position, fault) of the stated finite space is executed; rejection, error variant, file and position are checked on each.",
+         "Trusted: the harness; balancedness of brackets and block keywords in every sentence of the language; the end of an escaped identifier is not a boundary."),
 }
 PENDING = {}
 
